@@ -361,14 +361,14 @@ def run(out):
             cases.append((name, n, 0, False, ()))
             if n <= (2 if quick else 3):
                 cases.append((name, n, hist, False, ()))
-        if name in ('UnitSquare', 'LShape', 'UnitInterval'):
+        if name in ('UnitSquare', 'LShape', 'UnitInterval', 'Circle'):
             cases.append((name, 1, 0, True, ()))
             cases.append((name, 2, 1, True, ()))
     results = report.pmap('checks.c18', 'mesh_worker', cases)
     for c, r in zip(cases, results):
         report.merge_worker(out, r, part='mesh %s' % c[0])
     out.bounds = dict(curves=CURVES, time_slabs=slabs, history=hist,
-                      initial_space_grid='pw_start, plus one symbolic extra point on the first piece for three curves',
+                      initial_space_grid='pw_start, plus one symbolic extra point on the first piece (on the circle: two cells [0, s, 2pi])',
                       parameters='symbolic reals in [0, L]')
     out.outside = ['arc length / closedness of the circle (needs cos^2+sin^2 = 1 and a derivative)',
                    'random polygons', 'rounding: polygon identities are exact because all shipped sides are axis '
